@@ -1003,6 +1003,7 @@ before `let start = s.first().unwrap().span.start();`:
 /*@ fn src/parser/block_parser.rs BlockParser::text
 tags C03 C04 C05 C17
 ret t
+attr #[verifier::spinoff_prover]
 spec:
         requires self.wf(), toks_ok(tokens@), tokens@.len() > 0 ==> offset == tokens@[0].span.s(),   // [C03]
             gbnd(offset as int),
@@ -2129,6 +2130,7 @@ after `let end = bp.current_offset();`:
 @*/
 /*@ fn src/parser/step.rs parse_step
 tags C03 C04 C05
+attr #[verifier::spinoff_prover]
 spec:
     requires old(bp).wf(), old(bp).cur() == 0,
     ensures final(bp).wf(), final(bp).same(old(bp)),
@@ -2367,7 +2369,14 @@ pub open spec fn is_block(s: Seq<Token>, a: int, b: int, l: int) -> bool {
     &&& (a == 0 || s[a - 1].kind == TokenKind::Newline)            // it starts at a line start
     &&& s[b - 1].kind != TokenKind::Newline                        // trailing newlines are trimmed
     &&& (single_marker(s[a].kind) ==> no_newline(s, a, b))         // a `>>` / `=` line is a block of its own
+    &&& exists|e: int| a < e <= b && #[trigger] first_line(s, a, e) // its first line is not blank (leading blank lines are left out)
 }
+/// [a, e) lies within one line and is not blank
+pub open spec fn first_line(s: Seq<Token>, a: int, e: int) -> bool { no_newline(s, a, e - 1) && !all_blank(s, a, e) }
+pub proof fn lemma_rng_at(s: Seq<Token>, a: int, b: int, j: int)
+    requires a <= j < b, 0 <= j < s.len()
+    ensures all_blank(s, a, b) ==> empty_kind(s[j].kind), no_newline(s, a, b) ==> s[j].kind != TokenKind::Newline
+{ reveal(all_blank); reveal(no_newline); }
 pub proof fn lemma_rng_empty(s: Seq<Token>, a: int, b: int)
     requires b <= a
     ensures all_blank(s, a, b), no_newline(s, a, b)
@@ -2389,6 +2398,15 @@ pub proof fn lemma_rng_prefix(r0: Seq<Token>, l: int, a: int, b: int)
     let p = r0.subrange(0, l);
     if all_blank(p, a, b) { assert forall|j: int| a <= j < b implies empty_kind((#[trigger] r0[j]).kind) by { assert(p[j] == r0[j]); } }
     if all_blank(r0, a, b) { assert forall|j: int| a <= j < b implies empty_kind((#[trigger] p[j]).kind) by { assert(p[j] == r0[j]); } }
+}
+pub proof fn lemma_rng_prefix_nl(r0: Seq<Token>, l: int, a: int, b: int)
+    requires 0 <= a, b <= l <= r0.len()
+    ensures no_newline(r0.subrange(0, l), a, b) == no_newline(r0, a, b)
+{
+    reveal(no_newline);
+    let p = r0.subrange(0, l);
+    if no_newline(p, a, b) { assert forall|j: int| a <= j < b implies (#[trigger] r0[j]).kind != TokenKind::Newline by { assert(p[j] == r0[j]); } }
+    if no_newline(r0, a, b) { assert forall|j: int| a <= j < b implies (#[trigger] p[j]).kind != TokenKind::Newline by { assert(p[j] == r0[j]); } }
 }
 /// what one more line means for the caller's bookkeeping over the whole remaining stream `r0` (pull_line speaks about `r0.skip(l)`)
 pub proof fn lemma_line(r0: Seq<Token>, l: int)
@@ -2416,13 +2434,23 @@ pub proof fn lemma_line(r0: Seq<Token>, l: int)
     }
 }
 /// the bookkeeping of next_block adds up to the block predicate
-pub proof fn lemma_is_block(r0: Seq<Token>, ls: int, end: int, l: int)
+pub proof fn lemma_is_block(r0: Seq<Token>, ls: int, l0: int, end: int, l: int)
     requires 0 <= ls < end <= l <= r0.len(), all_blank(r0, 0, ls), all_blank(r0, end, l), !all_blank(r0, ls, end),
         ls == 0 || r0[ls - 1].kind == TokenKind::Newline, r0[end - 1].kind != TokenKind::Newline,
         single_marker(r0[ls].kind) ==> no_newline(r0, ls, l - 1),
+        // the first line [ls, l0): not blank, no newline before its last token, and the trimmed block keeps all of it but that newline
+        ls < l0 <= l, no_newline(r0, ls, l0 - 1), !all_blank(r0, ls, l0), l0 - 1 <= end,
     ensures is_block(r0, ls, end, l)
 {
     if end == l { lemma_rng_join(r0, ls, l - 1, l); lemma_rng_one(r0, l - 1); } else { lemma_rng_join(r0, ls, end, l - 1); }
+    if end >= l0 { assert(first_line(r0, ls, l0)); }
+    else {
+        // end == l0 - 1: the trimmed token r0[l0 - 1] is blank (it lies in [end, l))
+        lemma_rng_at(r0, end, l, l0 - 1);
+        lemma_rng_join(r0, ls, l0 - 1, l0); lemma_rng_one(r0, l0 - 1);
+        lemma_rng_join(r0, ls, l0 - 2, l0 - 1);
+        assert(first_line(r0, ls, l0 - 1));
+    }
 }
 
 impl<'i, T> PullParser<'i, T> where T: Iterator<Item = Token> {
@@ -2480,7 +2508,7 @@ loop 0:
                 self.ctx_same(old(self)), self.q() == old(self).q(),
                 0 <= n <= old(self).rem().len(), n == self.blk().len() - old(self).blk().len(),
                 (n > 0) == !no_tokens,
-                self.blk() == old(self).blk() + old(self).rem().subrange(0, n),
+                self.blk() == old(self).blk() + old(self).rem().subrange(0, n),     // [C05] every token taken from the stream is stored in the block
                 is_empty == all_blank(old(self).rem(), 0, n),
                 no_newline(old(self).rem(), 0, n - 1),
                 is_single_line == (old(self).rem().len() > 0 && single_marker(old(self).rem()[0].kind)),
@@ -2547,6 +2575,8 @@ loopbody 0:
             proof { lemma_rng_join(r0, 0, ls, len0); lemma_line(r0, len0); }
 after `current_line = self.pull_line()?;`#1:
             proof { ls = len0; }
+afterloop 0:
+        let ghost l0 = self.blk().len() as int;     // end of the first non-blank line
 after `end = self.block.len();`#0:
         proof { lemma_rng_empty(r0, end as int, end as int); }
 loop 1:
@@ -2554,7 +2584,7 @@ loop 1:
                     end == self.blk().len(),
                     r0[self.blk().len() - 1].kind != TokenKind::Newline ==> self.rem().len() == 0,
                 invariant self.wf(), self.ctx_same(old(self)), self.q() == old(self).q(), r0 == old(self).rem(), toks_ok(r0),
-                    ls < end <= self.blk().len() <= r0.len(), start == ls,
+                    ls < l0 <= end <= self.blk().len() <= r0.len(), start == ls,
                     self.blk() == r0.subrange(0, self.blk().len() as int), self.rem() == r0.skip(self.blk().len() as int),
                     !all_blank(r0, ls, end as int), all_blank(r0, end as int, self.blk().len() as int),
                     self.blk()[self.blk().len() - 1] == r0[self.blk().len() - 1],
@@ -2566,13 +2596,15 @@ loopbody 1:
                 proof { lemma_line(r0, len1); }
 after `end = self.block.len();`#1:
                 proof { lemma_rng_join(r0, ls, len1, end as int); lemma_rng_empty(r0, end as int, end as int); }
-before `while let mt![newline] = self.block[end - 1] {`:
+beforeloop 2:
         proof {
+            lemma_rng_prefix_nl(r0, self.blk().len() as int, ls, l0 - 1);
             lemma_rng_prefix(r0, self.blk().len() as int, ls, end as int);
             lemma_rng_prefix(r0, self.blk().len() as int, end as int, self.blk().len() as int);
         }
 loop 2:
-            invariant ls < end <= self.blk().len(), start == ls,
+            invariant ls < end <= self.blk().len(), start == ls, ls < l0 <= self.blk().len(), l0 - 1 <= end,
+                no_newline(self.blk(), ls, l0 - 1),
                 !all_blank(self.blk(), ls, end as int), all_blank(self.blk(), end as int, self.blk().len() as int),
             ensures self.blk()[end - 1].kind != TokenKind::Newline,
             decreases end
@@ -2582,13 +2614,14 @@ loopbody 2:
                 lemma_rng_join(self.blk(), ls, end - 1, end as int);
                 lemma_rng_join(self.blk(), end - 1, end as int, self.blk().len() as int);
                 if ls == end - 1 { lemma_rng_empty(self.blk(), ls, ls); }
+                if end - 1 < l0 - 1 { lemma_rng_at(self.blk(), ls, l0 - 1, end - 1); }
             }
-before `let trimmed_block = &self.block[start..end];`:
+afterloop 2:
         proof {
             lemma_rng_prefix(r0, self.blk().len() as int, ls, end as int);
             lemma_rng_prefix(r0, self.blk().len() as int, end as int, self.blk().len() as int);
             assert(self.blk()[end - 1] == r0[end - 1]);
-            lemma_is_block(r0, ls, end as int, self.blk().len() as int);
+            lemma_is_block(r0, ls, l0, end as int, self.blk().len() as int);
             lemma_sub_ok(r0, 0, self.blk().len() as int);
             lemma_sub_ok(self.blk(), start as int, end as int);
             lemma_tok(self.blk().subrange(start as int, end as int), 0);
@@ -2641,7 +2674,8 @@ loop 1:
             invariant
                 vstd::std_specs::iter::IteratorSpec::obeys_prophetic_iter_laws(&self.tokens), self.input.spec_bytes() == the_input(),
                 self.ctx_same(old(self)), self.q() == old(self).q(), r0 == old(self).rem(), toks_ok(r0),
-                0 <= n, 0 <= k, k + n <= r0.len(), self.blk() == r0.subrange(k, k + n),
+                0 <= n, 0 <= k, k + n <= r0.len(),
+                self.blk() == r0.subrange(k, k + n),      // [C03] [C05] the entry's tokens, `>>` included, are stored (the block parser needs a non-empty block)
             ensures self.wf(), n > 0, exists|m: int| 0 <= m <= r0.len() && self.rem() == #[trigger] r0.skip(m),
             decreases self.fuel()
 loopbody 1:
